@@ -490,6 +490,13 @@ func C14(tier string) int {
 			{"alias-map-in-list", L{asURI, M{uri: "zz"}}, "zz:" + tv.Name},
 			{"alias-map-type-array", M{uri: "zz"}, L{"zz:" + tv.Name}},
 			{"alias-map-in-list-after-others", L{M{"https://other.example/ns": "oo"}, M{uri: "zz"}}, "zz:" + tv.Name},
+			// multi-valued 'type' under an alias: the entry naming this type after / before / between entries
+			// that name no type of the loaded vocabularies
+			{"alias-map-type-array-unknown-first", M{uri: "zz"}, L{"ext:Memo", "zz:" + tv.Name}},
+			{"alias-map-type-array-unknown-last", M{uri: "zz"}, L{"zz:" + tv.Name, "ext:Memo"}},
+			{"alias-map-type-array-two-unknown-first", L{M{"https://other.example/ns": "ext"}, M{uri: "zz"}}, L{"ext:Memo", "Frobnicate", "zz:" + tv.Name}},
+			{"alias-map-type-array-unaliased-name-first", M{uri: "zz"}, L{"Frobnicate", "zz:" + tv.Name, "ext:Memo"}},
+			{"own-uri-type-array-unknown-first", uri, L{"ext:Memo", tv.Name}},
 		}
 		if uri == asURI {
 			forms[2].ctx = L{uri, "https://other.example/ns"}
@@ -564,7 +571,7 @@ func C14(tier string) int {
 	}
 
 	res.Extra["types"] = len(keys)
-	res.Rule = fmt.Sprintf("(1) all %d x %d (value type, callback type) pairs for JSONResolver, TypeResolver and TypePredicatedResolver (predicate outcomes (true,nil),(false,nil),(false,err),(true,err); and a passing own-type predicate in front of a delegate that has no callback for the type); (1c) one JSONResolver / TypeResolver value reused for a sequence of 7 values of different types; (2) for every value type all callback lists of length 0..%d over {own, own returning an error, a parent, a child, a sibling, a similarly named foreign type, a foreign type}; (3) all 'type' arrays of length 1..4 over {Note, Person, Emoji, an unknown name, an unknown prefixed name} x 6 callback sets, with ToType as cross-check; (3a) 12 'type' members that name no type (empty array, arrays of non-strings, number, null, object, boolean, empty string, wrong case): nothing invoked, unmatched error; (3b) every type written under 7 @context spellings (own vocabulary URI, the same with the other of http / https, in a list, aliased {URI: alias} alone / in a list / after another alias map / with a type array) through JSONResolver and ToType; (4) 13 wrong constructor shapes x 3 constructors; callbacks are manufactured with reflect.MakeFunc from the ontology-derived binding table; oracle: exactly the first own-type callback is invoked and its error returned by identity, else nothing is invoked and IsUnmatchedErr holds", len(keys), len(keys), maxLen)
+	res.Rule = fmt.Sprintf("(1) all %d x %d (value type, callback type) pairs for JSONResolver, TypeResolver and TypePredicatedResolver (predicate outcomes (true,nil),(false,nil),(false,err),(true,err); and a passing own-type predicate in front of a delegate that has no callback for the type); (1c) one JSONResolver / TypeResolver value reused for a sequence of 7 values of different types; (2) for every value type all callback lists of length 0..%d over {own, own returning an error, a parent, a child, a sibling, a similarly named foreign type, a foreign type}; (3) all 'type' arrays of length 1..4 over {Note, Person, Emoji, an unknown name, an unknown prefixed name} x 6 callback sets, with ToType as cross-check; (3a) 12 'type' members that name no type (empty array, arrays of non-strings, number, null, object, boolean, empty string, wrong case): nothing invoked, unmatched error; (3b) every type written under 12 @context / type spellings (own vocabulary URI, the same with the other of http / https, in a list, aliased {URI: alias} alone / in a list / after another alias map / with a type array, also one whose other entries - before, after, around it - name no known type) through JSONResolver and ToType; (4) 13 wrong constructor shapes x 3 constructors; callbacks are manufactured with reflect.MakeFunc from the ontology-derived binding table; oracle: exactly the first own-type callback is invoked and its error returned by identity, else nothing is invoked and IsUnmatchedErr holds", len(keys), len(keys), maxLen)
 	res.Assumptions = []string{"for a multi-valued 'type' the value's own type is the first entry that names a known type (ToType is required to agree)"}
 	return res.Finish()
 }
